@@ -43,6 +43,7 @@ func (vtimeout) Temporary() bool { return true }
 type VConn struct {
 	mu          sync.Mutex
 	auto        bool // complete every operation immediately (connection set-up)
+	gateClose   bool // Close parks at a gate as well
 	closed      bool
 	pending     []*gate
 	seq         int
@@ -152,6 +153,14 @@ func (v *VConn) SetReadDeadline(t time.Time) error {
 }
 
 func (v *VConn) Close() error {
+	v.mu.Lock()
+	gc := v.gateClose
+	v.mu.Unlock()
+	if gc {
+		// a Close that takes its time (lingering socket, TLS shutdown, a proxy's own teardown):
+		// the connection counts as closed only once the controller lets it complete
+		v.park("close", nil, false)
+	}
 	v.mu.Lock()
 	v.closed = true
 	v.closes++
